@@ -54,7 +54,7 @@ def maxOf : List Int → Int
 /-- insertion sort of (key, index) pairs by key, stable -/
 def insertKV (e : Int × Nat) : List (Int × Nat) → List (Int × Nat)
   | [] => [e]
-  | f :: r => if e.1 < f.1 then e :: f :: r else f :: insertKV e r
+  | f :: r => if e.1 ≤ f.1 then e :: f :: r else f :: insertKV e r
 /-- `np.argsort` (keys distinct in every readable file) -/
 def argsort (keys : List Int) : List Nat :=
   ((Ang.zipIdxFrom 0 keys).map (fun jk => (jk.2, jk.1))).foldr insertKV [] |>.map (·.2)
